@@ -349,6 +349,7 @@ type netConf struct {
 	handleTimeout int // ms, 0 = none
 	reqs          []reqSpec
 	conns         int // requests are dealt round-robin onto this many connections
+	halfClose     int // >0: connection halfClose-1 shuts down its sending side right after its last request (and keeps reading)
 	shutdownAtMs  int // >0: the server is shut down (gracefully, ample context) at this time while requests keep arriving
 }
 
@@ -379,12 +380,14 @@ func netScenario(c netConf) *vm.Scenario {
 				var rd func([]byte) (int, error)
 				var wr func([]byte) (int, error)
 				var setdl func(time.Time) error
+				closeWrite := func() {}
 				if c.proto == "tcp" {
 					cn, err := vnet.Dial("tcp", addr)
 					if err != nil {
 						panic(err)
 					}
 					rd, wr, setdl = cn.Read, cn.Write, cn.SetReadDeadline
+					closeWrite = func() { cn.(*vnet.TCPConn).CloseWrite() }
 				} else {
 					cn, err := vnet.Dial("udp", addr)
 					if err != nil {
@@ -399,6 +402,9 @@ func netScenario(c netConf) *vm.Scenario {
 						}
 						wr(q.encode())
 					}
+				}
+				if c.halfClose == k+1 {
+					closeWrite()
 				}
 				setdl(vtime.Now().Add(3 * time.Second))
 				var buf []byte
@@ -704,6 +710,16 @@ func main() {
 		late2.atMs = 50 // the other connection's request is being executed by then
 		add(netConf{name: "queue-timeout behind busy worker two conns", proto: proto, maxInvoke: 1, conns: 2, reqs: []reqSpec{
 			R(61, 1, 0, "notify", "slow600"), late2}}, 1, false)
+	}
+	// a client that sends its request and shuts down its sending side while the request waits behind a busy worker
+	// (and, without a pool, while it is being handled): the answer still comes before the connection is closed
+	for _, pool := range []int32{0, 1} {
+		hc := R(92, 1, 0, "notify", "slow100")
+		hc.atMs = 50
+		add(netConf{name: "half-close with a queued request", proto: "tcp", maxInvoke: pool, conns: 2, halfClose: 2, reqs: []reqSpec{
+			R(91, 1, 0, "notify", "slow1500"), hc}}, 1, false)
+		add(netConf{name: "half-close single connection", proto: "tcp", maxInvoke: pool, conns: 1, halfClose: 1, reqs: []reqSpec{
+			R(93, 1, 0, "notify", "slow700"), R(94, 1, 0, "notify", "ok")}}, 1, false)
 	}
 	// requests whose bytes end exactly on the 4096-byte read buffer, then silence
 	for _, pool := range []int32{0, 1} {
